@@ -216,6 +216,29 @@ func runC16(ctx *core.Ctx) {
 			ctx.Bad("U2", "testscript.applyScriptUpdates#entry-by-name", apply.Pos(), "no entry data is ever updated")
 		}
 	}
+	// ---- U5: updates are applied however the script ends
+	ctx.Rule("U5", "recorded updates are written back on every normal end of the run (end of script or stop): run registers the update step by defer before the first line runs, or calls it on every path to its return", 1)
+	if run := p.Func("testscript", "(*TestScript).run"); run != nil {
+		rg := graph(p, run)
+		var firstLine *ssa.Call
+		for _, c := range rg.Calls("(*" + tsPkg + ".TestScript).runLine") {
+			firstLine = c
+		}
+		ok := false
+		rg.Instrs(func(i ssa.Instruction) {
+			if d, isD := i.(*ssa.Defer); isD && d.Call.StaticCallee() == apply && firstLine != nil && rg.Dominates(d, firstLine) {
+				ok = true
+			}
+		})
+		if !ok {
+			exits := rg.MustPass(ssax.Point{Block: 0}, func(i ssa.Instruction) bool {
+				c, isC := i.(*ssa.Call)
+				return isC && c.Call.StaticCallee() == apply
+			}, false)
+			ok = len(exits) == 0 && len(rg.Calls(ssax.FuncName(apply))) > 0
+		}
+		ctx.Check(ok, "U5", "testscript.run#apply-on-every-end", run.Pos(), "the update step runs however the script ends (a 'stop' after the mismatching cmp must not lose the update)")
+	}
 	// ---- U3 / U4
 	quoteProtocol(ctx, "U3", []string{"testscript"})
 	{
